@@ -24,6 +24,7 @@ type Program struct {
 	Funcs   map[string]*FuncInfo         // by key "pkg.Recv.Name" / "pkg.Name"
 	Specs   *SpecSet
 	ModPath string
+	pureMemo map[string]int
 }
 
 // FuncInfo is one function or method declared in the repo.
